@@ -111,7 +111,11 @@ class Model:
             if W is None:
                 raise Inapplicable("disconnected geometry node")
             rec = self.geoms[g]
-            out[n] = (rec["kind"], mx.apply(W, rec["V"]), rec["F"], g)
+            # a world matrix whose linear part is within 1e-5 of a rotation without being one (a chain of scales whose product is
+            # 1.0000004): SceneGraph.get repairs such products to exactly rigid (repair_rigid = 1e-5) - a documented tolerance
+            L = np.asarray(W, dtype=float)[:3, :3]
+            dev = float(np.abs(L @ L.T - np.eye(3)).max())
+            out[n] = (rec["kind"], mx.apply(W, rec["V"]), rec["F"], g, 0.0 < dev < 3e-5)
         return out
 
 
@@ -278,14 +282,18 @@ class C10(World):
         for n, a, b in pairs:
             if a[0] != b[0]:
                 ctx.fail(oracle, what + "-kind", f"node {n}: {a[0]} != {b[0]}")
+            ptol = 1e-9
+            if len(b) > 4 and b[4]:
+                ptol = 3e-5
+                ctx.count("probe:world-matrix-within-repair-tolerance-of-rigid")
             if a[0] == "path" and np.shape(a[1]) == np.shape(b[1]) and len(a[1]):
                 # a drawing may renumber its vertices (Path2D.to_3D does): the placed corner set is what counts
                 ka, kb = np.lexsort(np.round(a[1], 7).T[::-1]), np.lexsort(np.round(b[1], 7).T[::-1])
-                bad = same(a[1][ka], b[1][kb], 1e-9, f"{n}.vertices")
+                bad = same(a[1][ka], b[1][kb], ptol, f"{n}.vertices")
             else:
-                bad = same(a[1], b[1], 1e-9, f"{n}.vertices")
+                bad = same(a[1], b[1], ptol, f"{n}.vertices")
             if not bad and a[0] == "mesh":
-                bad = same(a[1][a[2]] if len(a[2]) else np.zeros((0, 3, 3)), b[1][b[2]] if len(b[2]) else np.zeros((0, 3, 3)), 1e-9, f"{n}.triangles")
+                bad = same(a[1][a[2]] if len(a[2]) else np.zeros((0, 3, 3)), b[1][b[2]] if len(b[2]) else np.zeros((0, 3, 3)), ptol, f"{n}.triangles")
             if bad:
                 ctx.fail(oracle, what, f"{bad}")
 
@@ -389,6 +397,8 @@ class C10(World):
 
     def _read_checked(self, scene, model, obs, st, ctx):
         pl = model.placements()
+        # (a world matrix within the graph's repair tolerance of a rotation is snapped to one: see Model.placements)
+        RT = 1e-4 if any(len(p) > 4 and p[4] for p in pl.values()) else 1e-9
         allV = np.vstack([p[1] for p in pl.values() if len(p[1])]) if any(len(p[1]) for p in pl.values()) else np.zeros((0, 3))
         T = placed_triangles(pl)
         ctx.count("check:" + obs)
@@ -407,7 +417,7 @@ class C10(World):
                 return
             b = np.array([allV.min(axis=0), allV.max(axis=0)])
             want = {"bounds": b, "extents": b[1] - b[0], "centroid": b.mean(axis=0), "scale": float(np.linalg.norm(b[1] - b[0]))}[obs]
-            bad = same(got, want, 1e-9, obs) if got is not None else "None"
+            bad = same(got, want, RT, obs) if got is not None else "None"
             if bad:
                 fail(bad)
         elif obs == "bounds_corners":
@@ -417,7 +427,7 @@ class C10(World):
                     continue
                 if n not in got:
                     fail(f"node {n} missing")
-                bad = same(got[n], np.array([p[1].min(axis=0), p[1].max(axis=0)]), 1e-9, n)
+                bad = same(got[n], np.array([p[1].min(axis=0), p[1].max(axis=0)]), RT, n)
                 if bad:
                     fail(bad)
         elif obs == "area":
@@ -427,7 +437,7 @@ class C10(World):
                 if model.geoms[p[3]].get("dim") == 2:
                     Q = p[1]
                     planar += 0.5 * float(np.linalg.norm(sum(np.cross(Q[i], Q[(i + 1) % len(Q)]) for i in range(len(Q)))))
-            bad = same(scene.area, tri_area(T) + planar, 1e-9, "area")
+            bad = same(scene.area, tri_area(T) + planar, RT, "area")
             if bad:
                 if self._instance_scaled(model) and ctx.is_known("C10-area-volume-ignore-instance-scale"):
                     self._finding_unscaled(scene, model, "area", ctx, fail)
@@ -438,7 +448,7 @@ class C10(World):
                 # the enclosed volume of an open surface is origin dependent: not defined by the statement
                 ctx.count("skip:volume-of-open-surface")
                 return
-            bad = same(scene.volume, tri_volume(T), 1e-9, "volume")
+            bad = same(scene.volume, tri_volume(T), RT, "volume")
             if bad:
                 if self._instance_scaled(model) and ctx.is_known("C10-area-volume-ignore-instance-scale"):
                     self._finding_unscaled(scene, model, "volume", ctx, fail)
@@ -463,7 +473,7 @@ class C10(World):
             for n, p in pl.items():
                 if p[0] != "mesh" or not len(p[2]):
                     continue
-                bad = same(got[nodes == n], p[1][p[2]], 1e-9, f"triangles[{n}]")
+                bad = same(got[nodes == n], p[1][p[2]], RT, f"triangles[{n}]")
                 if bad:
                     fail(bad)
             if len(got) != len(T):
@@ -478,7 +488,7 @@ class C10(World):
             except Exception:
                 raise Inapplicable()  # degenerate point set: no hull is defined
             got = scene.convex_hull
-            bad = same(float(got.volume), float(h.volume), 1e-7, "hull volume") or same(got.bounds, np.array([allV.min(axis=0), allV.max(axis=0)]), 1e-9, "hull bounds")
+            bad = same(float(got.volume), float(h.volume), max(RT, 1e-7), "hull volume") or same(got.bounds, np.array([allV.min(axis=0), allV.max(axis=0)]), RT, "hull bounds")
             if bad:
                 fail(bad)
         elif obs == "dump":
@@ -495,9 +505,9 @@ class C10(World):
                 W = pl[n][1]
                 if pl[n][0] == "path" and V.shape == W.shape and len(V):
                     V, W = V[np.lexsort(np.round(V, 7).T[::-1])], W[np.lexsort(np.round(W, 7).T[::-1])]
-                bad = same(V, W, 1e-9, f"dump[{n}].vertices")
+                bad = same(V, W, RT, f"dump[{n}].vertices")
                 if not bad and pl[n][0] == "mesh":
-                    bad = same(V[np.asarray(g.faces)] if len(g.faces) else np.zeros((0, 3, 3)), pl[n][1][pl[n][2]] if len(pl[n][2]) else np.zeros((0, 3, 3)), 1e-9, f"dump[{n}].triangles")
+                    bad = same(V[np.asarray(g.faces)] if len(g.faces) else np.zeros((0, 3, 3)), pl[n][1][pl[n][2]] if len(pl[n][2]) else np.zeros((0, 3, 3)), RT, f"dump[{n}].triangles")
                 if bad:
                     fail(bad)
         elif obs in ("to_mesh", "to_geometry"):
@@ -507,7 +517,7 @@ class C10(World):
             if obs == "to_geometry" and kinds != {"mesh"}:
                 raise Inapplicable()
             got = scene.to_mesh() if obs == "to_mesh" else scene.to_geometry()
-            bad = same(canon_tris(np.asarray(got.triangles)), canon_tris(T), 1e-6, obs)
+            bad = same(canon_tris(np.asarray(got.triangles)), canon_tris(T), max(RT, 1e-6), obs)
             if bad:
                 fail(bad)
         elif obs == "is_valid":
@@ -736,7 +746,7 @@ class C10(World):
         elif k == "scaled":
             s = op["scale"]
             result = scene.scaled(s if op["form"] == "float" else [s, s, s])
-            want = {n: (p[0], p[1] * s, p[2], p[3]) for n, p in src.items()}
+            want = {n: (p[0], p[1] * s, p[2], p[3], *p[4:]) for n, p in src.items()}
         elif k == "scaled3":
             s = np.array(op["scale"], dtype=float)
             if not src:
@@ -744,14 +754,14 @@ class C10(World):
             if any(p[0] == "points" for p in src.values()):
                 pass
             result = scene.scaled(list(op["scale"]))
-            want = {n: (p[0], p[1] * s, p[2], p[3]) for n, p in src.items()}
+            want = {n: (p[0], p[1] * s, p[2], p[3], *p[4:]) for n, p in src.items()}
         elif k == "convert_units":
             units = {r["units"] for r in model.geoms.values()}
             if len(units) != 1 or None in units or not model.geoms:
                 raise Inapplicable()
             fac = TO_M[units.pop()] / TO_M[op["to"]]
             result = scene.convert_units(op["to"])
-            want = {n: (p[0], p[1] * fac, p[2], p[3]) for n, p in src.items()}
+            want = {n: (p[0], p[1] * fac, p[2], p[3], *p[4:]) for n, p in src.items()}
         elif k == "rezero":
             allV = [p[1] for p in src.values() if len(p[1])]
             if not allV:
@@ -760,7 +770,7 @@ class C10(World):
             c = (allV.min(axis=0) + allV.max(axis=0)) / 2
             scene.rezero()
             result, in_place = scene, True
-            want = {n: (p[0], p[1] - c, p[2], p[3]) for n, p in src.items()}
+            want = {n: (p[0], p[1] - c, p[2], p[3], *p[4:]) for n, p in src.items()}
         elif k == "apply_transform":
             if f.base not in f.nodes or not [c for c, p in f.parent.items() if p == f.base]:
                 raise Inapplicable()
@@ -768,7 +778,7 @@ class C10(World):
             scene.apply_transform(M)
             result, in_place = scene, True
             # placements of instances connected through children of the base frame move by M
-            want = {n: (p[0], mx.apply(M, p[1]), p[2], p[3]) for n, p in src.items()}
+            want = {n: (p[0], mx.apply(M, p[1]), p[2], p[3], *p[4:]) for n, p in src.items()}
         elif k == "subscene":
             cands = sorted(n for n in f.nodes if n != f.base and f.connected(n, f.base))
             if not cands:
@@ -776,7 +786,7 @@ class C10(World):
             node = cands[op["i"] % len(cands)]
             result = scene.subscene(node)
             inv = np.linalg.inv(f.T(f.base, node))
-            want = {n: (p[0], mx.apply(inv, p[1]), p[2], p[3]) for n, p in src.items() if f.is_ancestor(node, n)}
+            want = {n: (p[0], mx.apply(inv, p[1]), p[2], p[3], *p[4:]) for n, p in src.items() if f.is_ancestor(node, n)}
             if node in want and node not in self.observed_placements(result) and ctx.is_known("C10-subscene-drops-root-geometry"):
                 ctx.finding("C10-subscene-drops-root-geometry", node)
                 del want[node]
@@ -786,7 +796,7 @@ class C10(World):
                     raise Inapplicable()
                 other = scene.copy()
                 other.apply_transform(mx.hom(None, [3.0, 0.5, -1.0]))
-                omodel_pl = {n: (p[0], p[1] + np.array([3.0, 0.5, -1.0]), p[2], p[3]) for n, p in src.items()}
+                omodel_pl = {n: (p[0], p[1] + np.array([3.0, 0.5, -1.0]), p[2], p[3], *p[4:]) for n, p in src.items()}
             else:
                 other = trimesh.Scene()
                 om = Model("world")
@@ -806,7 +816,7 @@ class C10(World):
                     c = (allp.min(axis=0) + allp.max(axis=0)) / 2.0
                     other.rezero()
                     if not np.allclose(c, 0.0):
-                        omodel_pl = {n: (p[0], p[1] - c, p[2], p[3]) for n, p in omodel_pl.items()}
+                        omodel_pl = {n: (p[0], p[1] - c, p[2], p[3], *p[4:]) for n, p in omodel_pl.items()}
             other_before = self.snapshot(other)
             result = scene + other
             want = {("a", n): p for n, p in src.items()}
